@@ -11,7 +11,7 @@
   (`#eval same shop = true`, see the report) — the kernel cannot evaluate it (string primitives), and a proof needs two
   changes in the C12 model that only its owner can make (see `SdlText` section "what a proof needs" below).
 -/
-import PyGqlModel.Lemmas.SdlText
+import PyGqlModel.SdlText
 import PyGqlModel.Props.C12_print_build
 namespace PyGql.Props.C12
 open PyGql PyGql.Ast PyGql.Sdl PyGql.SdlPrint PyGql.SdlText
